@@ -68,7 +68,10 @@ Inductive c08_case :=
 | GetterCase (store : list aggr) (probes : list probe)
 (* consecutive observed stores around one operation; flag_of = the (query, reporter, height) of the
    report named by a dispute / evidence message, if any; block = the operation was an end block *)
-| AppendCase (op : string) (before after : list aggr) (flags : list (Z * Z * Z)).
+| AppendCase (op : string) (before after : list aggr) (flags : list (Z * Z * Z))
+(* attestation snapshots written by the bridge in the state whose aggregate store is [store]:
+   (query, report timestamp, PrevReportTimestamp, NextReportTimestamp); 0 = none *)
+| SnapshotCase (store : list aggr) (snaps : list (Z * Z * Z * Z)).
 
 Definition probe_check (l : list aggr) (p : probe) : issues :=
   let 'Probe q t i r1 r2 r3 r4 r5 r6 := p in
@@ -121,6 +124,13 @@ Definition c08_check (c : c08_case) : issues :=
                                     | Some b => Bool.eqb (ag_flagged a) (ag_flagged b) | None => false end) m
                   || negb (match flags with [] => false | _ => true end))
                  "flagged set after dispute/evidence"
+  | SnapshotCase l snaps =>
+      flat_map (fun sn => let '(q, t, prev, next) := sn in
+        spec_if (match by_timestamp q t l with Some _ => true | None => false end) "attestation snapshot of a report that is not in the aggregate history"
+        ++ spec_if (prev =? match ts_before q t l with Some x => x | None => 0 end)
+                   "PrevReportTimestamp of an attestation snapshot is not the previous aggregate's timestamp"
+        ++ spec_if (next =? match ts_after q t l with Some x => x | None => 0 end)
+                   "NextReportTimestamp of an attestation snapshot is not the next aggregate's timestamp") snaps
   end.
 
 Definition c08_classes (c : c08_case) : list string := [].
